@@ -505,10 +505,9 @@ func (p *DefParser) loopTask(
 // Close
 func (p *DefParser) Close() {
 	p.lock.Lock()
-	defer p.lock.Unlock()
-
 	select {
 	case <-p.closeCh:
+		p.lock.Unlock()
 		log.Info("parser has already closed")
 		return
 	default:
@@ -517,6 +516,10 @@ func (p *DefParser) Close() {
 	for i := range p.workerQueue {
 		close(p.workerQueue[i])
 	}
+	// the write lock only protects closing the channels: a worker that drains its queue may
+	// have to enter a task again (a pre-check that skips or blocks it), which takes the read
+	// lock - waiting for the workers while holding the write lock would deadlock
+	p.lock.Unlock()
 	p.workerWg.Wait()
 }
 
